@@ -322,7 +322,7 @@ def run(ctx):
             for ops in exhaustive(n):
                 # canceller kinds matter when the aggregate or race may cancel something
                 matters = c["kind"] == "race" or any(o[0] == "cancelagg" for o in ops)
-                for ck in ck_variants(ctx.rng, n, matters, ctx.quick):
+                for ck in ck_variants(ctx.rng, n, matters, ctx.quick or n >= 4):
                     t = run_history(dict(c, n=n, ck=ck), ops)
                     h = json.dumps(t, sort_keys=True)
                     if h not in seen:     # histories that became equal after skipping fire() of cancelled inputs
@@ -334,7 +334,7 @@ def run(ctx):
     ctx.log("exhaustive n<=%d: %d real executions" % (nmax, len(traces)))
     # sampled: next size up, then random larger lists with cancellation injected at random points
     cfgs = all_cfgs()
-    for k in range(ctx.pick(600, 30000)):
+    for k in range(ctx.pick(600, 15000)):
         c = cfgs[k % len(cfgs)]
         n = nmax + 1 if k % 3 == 0 else ctx.rng.randint(2, 12)
         cfg = dict(c, n=n, ck=[ctx.rng.choice([0, 0, 1, 2, 3]) for _ in range(n)])
